@@ -20,6 +20,15 @@ def build_harness():
     return os.path.join(HARNESS, 'target', 'debug')
 
 
+def build_capture_sm():
+    """capture binary with logos-codegen's state_machine_codegen feature"""
+    tdir = os.path.join(HARNESS, 'target-sm')
+    p = sh(['cargo', 'build', '--offline', '-p', 'capture', '--features', 'sm', '--target-dir', tdir], cwd=HARNESS, env=ENV)
+    if p.returncode != 0:
+        return None
+    return os.path.join(tdir, 'debug', 'capture')
+
+
 def build_lean(targets=('logosmodel',)):
     p = sh(['lake', 'build'] + list(targets), cwd=LEAN)
     if p.returncode != 0:
